@@ -245,4 +245,23 @@ theorem so3Exp_tangent_zero (eps : ℝ) (heps : 0 < eps) (x : ℝ → DVec ℝ) 
   refine (key i hi).congr_of_eventuallyEq ?_
   filter_upwards [hev] with t ht
   simp only [expF, so3Exp_taylor eps _ ht]
+/-- `so3_Jl(x) · so3_Jl_inv(x) = 1` on the closed-form branch (needs `sin(θ/2) ≠ 0`, i.e. `θ` not a multiple of `2π`) -/
+theorem so3Jl_mul_so3JlInv (eps : ℝ) (x : Vec3 ℝ) (h : eps < x.norm) (h0 : 0 ≤ eps) (hs : Real.sin (1/2 * x.norm) ≠ 0) :
+    (so3Jl eps x).mul (so3JlInv eps x) = Mat3.one := by
+  have hpos : 0 < x.norm := lt_of_le_of_lt h0 h
+  have hne : x.norm ≠ 0 := ne_of_gt hpos
+  set θ := x.norm with hθ
+  have hθ2 : θ * θ = x.x * x.x + x.y * x.y + x.z * x.z := Vec3.norm_sq x
+  have hsc := Real.sin_sq_add_cos_sq (1/2 * θ)
+  have hsin : Real.sin θ = 2 * Real.sin (1/2 * θ) * Real.cos (1/2 * θ) := by
+    have := Real.sin_two_mul (1/2 * θ); rwa [show 2 * (1/2 * θ) = θ by ring] at this
+  have hcos : Real.cos θ = 1 - 2 * Real.sin (1/2 * θ) ^ 2 := by
+    have := Real.cos_two_mul (1/2 * θ); rw [show 2 * (1/2 * θ) = θ by ring] at this
+    rw [this]; linarith [hsc]
+  unfold so3Jl so3JlInv so3JlCoef so3JlInvCoef polyK
+  simp only [← hθ, lt_real, h, decide_true, if_true, sin_real, cos_real]
+  ext <;> lie_unfold <;> rw [hsin, hcos] <;> field_simp <;>
+    (have hθ2' : θ ^ 2 = x.x ^ 2 + x.y ^ 2 + x.z ^ 2 := by rw [pow_two, hθ2]; ring
+     have hsc' : Real.sin (θ / 2) ^ 2 + Real.cos (θ / 2) ^ 2 = 1 := Real.sin_sq_add_cos_sq (θ / 2)
+     grind)
 end PP.AD
